@@ -434,6 +434,17 @@ func (fv *FnV) evalExternal(st *State, call *ast.CallExpr, o *types.Func) []Val 
 	switch full {
 	case "math.Abs":
 		return []Val{{fmt.Sprintf("(ite (>= %s 0.0) %s (- %s))", a(0), a(0), a(0)), realT}}
+	case "bits.Mul64":
+		// 128-bit product of two uint64: hi*2^64 + lo == x*y, 0 <= lo < 2^64, hi >= 0
+		u64 := types.Type(types.Typ[types.Uint64])
+		x := fv.name("mx", a(0), "Int")
+		y := fv.name("my", a(1), "Int")
+		hi := fv.fresh("mhi", "Int")
+		lo := fv.fresh("mlo", "Int")
+		fv.decls = append(fv.decls, fmt.Sprintf("(assert (and (= (+ (* 18446744073709551616 %s) %s) (* %s %s)) (<= 0 %s) (< %s 18446744073709551616) (<= 0 %s)))", hi, lo, x, y, lo, lo, hi))
+		// hint: both factors below 2^31 make the product smaller than 2^62, so hi is 0
+		fv.decls = append(fv.decls, fmt.Sprintf("(assert (=> (and (<= 0 %s) (< %s 2147483648) (<= 0 %s) (< %s 2147483648)) (and (= %s 0) (= %s (* %s %s)) (< %s 4611686018427387904))))", x, x, y, y, hi, lo, x, y, lo))
+		return []Val{{hi, u64}, {lo, u64}}
 	case "math.Min":
 		return []Val{{fmt.Sprintf("(ite (<= %s %s) %s %s)", a(0), a(1), a(0), a(1)), realT}}
 	case "math.Max":
